@@ -86,7 +86,9 @@ def fillSpan (cw : List (Option Rat)) (i k : Nat) (v : Rat) : List (Option Rat) 
 def cellShare (s : Rat) (cw : List (Option Rat)) (i : Nat) (colspan : Nat) (bw : Rat) : Rat :=
   bw - s * ((colspan : Rat) - 1) - spanKnown cw i colspan
 
-/-- One iteration of the loop over `first_row_cells` (state: widths so far, column index `i`). -/
+/-- One iteration of the loop over `first_row_cells` (state: widths so far, column index `i`).
+`width_per_column = max(width, 0) / len(columns_without_width)`: a cell narrower than the spacings
+and the known columns it spans gives its other columns 0, never a negative width (fix 5d962d2). -/
 def cellStep (s tableW : Rat) (st : List (Option Rat) × Nat) (c : FCell) : List (Option Rat) × Nat :=
   let cw := st.1
   let i := st.2
@@ -94,7 +96,7 @@ def cellStep (s tableW : Rat) (st : List (Option Rat) × Nat) (c : FCell) : List
     | none => cw
     | some bw =>
       let m := spanUnknown cw i c.colspan
-      if m = 0 then cw else fillSpan cw i c.colspan (cellShare s cw i c.colspan bw / (m : Rat))
+      if m = 0 then cw else fillSpan cw i c.colspan (max (cellShare s cw i c.colspan bw) 0 / (m : Rat))
   (cw', i + c.colspan)
 
 def numColumns (cols : List Dim) (cells : List FCell) : Nat :=
@@ -105,6 +107,21 @@ def fixedAfterCells (tableW s : Rat) (cols : List Dim) (cells : List FCell) : Li
   let n := numColumns cols cells
   let cw0 := cols.map (·.used tableW) ++ List.replicate (n - cols.length) none
   (cells.foldl (cellStep s tableW) (cw0, 0)).1
+
+/-- Does this first-row cell take the clamp `max(width, 0)` (its declared width is smaller than the
+spacings and known columns it spans)?  Evidence tag; in the real code with `Fraction` inputs this
+branch yields the float `0.0` (`int / int`). -/
+def cellClamps (s tableW : Rat) (st : List (Option Rat) × Nat) (c : FCell) : Bool :=
+  match c.borderWidth tableW with
+  | none => false
+  | some bw => decide (spanUnknown st.1 st.2 c.colspan ≠ 0) && decide (cellShare s st.1 st.2 c.colspan bw < 0)
+
+/-- Some first-row cell takes the clamp branch. -/
+def fixedClamped (tableW s : Rat) (cols : List Dim) (cells : List FCell) : Bool :=
+  let n := numColumns cols cells
+  let cw0 := cols.map (·.used tableW) ++ List.replicate (n - cols.length) none
+  (cells.foldl (fun (acc : (List (Option Rat) × Nat) × Bool) c =>
+    (cellStep s tableW acc.1 c, acc.2 || cellClamps s tableW acc.1 c)) ((cw0, 0), false)).2
 
 /-- What the remaining columns get: the remainder shared equally, or 0 for a "broken table". -/
 def fixedFill (tableW abs : Rat) (cw1 : List (Option Rat)) : Rat :=
